@@ -208,6 +208,85 @@ def finish_case(rng, decls, node, vrel, family, n_points=3, margin=1e-2):
     return {"decls": decls, "node": node, "V": V, "vrel": vrel, "family": family, "points": pts}
 
 
+S_TINY = 2.0 ** -30  # ~9.3e-10: below every absolute tolerance a "don't compare floats with ==" clean-up would pick (1e-8)
+
+
+def special_families():
+    """(family, node, inv_scale): numerically special but perfectly regular data - coefficient arrays / matrices / constant factors of
+    tiny uniform scale (exact power of two; the observation is scaled back before it is compared), constants and exponents that are
+    only *near* 0, 1 or 2."""
+    s = S_TINY
+    ab = ["bin", "+", ["bin", "*", _a, ["raw", 2, "int"]], _b]
+    sq = lambda M: [[v * s for v in row] for row in M]  # noqa: E731
+    F = []
+    inv = 1.0 / s
+    F.append(("tiny:qf", ["qf", _y, sq(Q3)], inv))
+    F.append(("tiny:qf-symmetric", ["qf", _y, sq([[4.0, 1.0, 0.5], [1.0, 9.0, -2.0], [0.5, -2.0, 3.0]])], inv))
+    F.append(("tiny:dotQ", ["dotQ", _y, sq(Q3), _y], inv))
+    F.append(("tiny:mv-el", ["el", ["mv", sq(Q3), _y], 1], inv))
+    F.append(("tiny:arr@vec", ["matmul", ["arr", [1.5 * s, -2.0 * s, 0.25 * s]], _y], inv))
+    F.append(("tiny:vec@arr", ["matmul", _y, ["arr", [1.5 * s, -2.0 * s, 0.25 * s]]], inv))
+    F.append(("tiny:arr@vexpr", ["matmul", ["arr", [1.5 * s, -2.0 * s, 0.25 * s]], ["vbin", "+", _y, ["raw", 1.0, "float"]]], inv))
+    F.append(("tiny:dot-list", ["dot", _y, ["list", [1.0 * s, -2.0 * s, 3.0 * s]]], inv))
+    F.append(("tiny:factor*square", ["bin", "*", ["raw", s, "float"], ["bin", "**", ab, ["raw", 2, "int"]]], inv))
+    F.append(("tiny:const*sin", ["bin", "*", ["fn", "sin", ab], ["const", s, "float"]], inv))
+    F.append(("tiny:factor*vpowsum", ["bin", "*", ["raw", s, "float"], ["sum", ["vpow", _x, 3]]], inv))
+    F.append(("tiny:factor*dot", ["bin", "*", ["raw", s, "float"], ["dot", _y, _y]], inv))
+    F.append(("tiny:quotient", ["bin", "/", ["bin", "*", _a, _b], ["raw", inv, "float"]], inv))
+    F.append(("tiny:msum-mexpr", ["msum", ["mbin", "*", ["mat", "A"], ["arr2", [[1.0 * s, 2.0 * s, -1.0 * s], [0.5 * s, 0.25 * s, 2.0 * s]]]]], inv))
+    for c in (1.000001, 0.999999, 1.0 + 2.0 ** -40):
+        F.append((f"near-one:factor:{c!r}", ["bin", "*", ["raw", c, "float"], ["bin", "+", ["fn", "exp", _a], _b]], 1.0))
+        F.append((f"near-one:divisor:{c!r}", ["bin", "/", ["bin", "*", _a, _b], ["raw", c, "float"]], 1.0))
+    for k in (2.000001, 1.000001, 0.999999, 1e-6):
+        F.append((f"near-integer-exponent:{k!r}", ["bin", "**", _pos(ab), ["raw", k, "float"]], 1.0))
+        F.append((f"near-integer-vpow:{k!r}", ["sum", ["vpow", ["vbin", "+", ["vbin", "*", _y, _y], ["raw", 1.0, "float"]], k]], 1.0))
+    F.append(("near-zero:addend", ["bin", "+", ["bin", "*", _a, _b], ["bin", "*", ["raw", 1e-9, "float"], _a]], 1.0))
+    return F
+
+
+def special_cases(rng, mine, n_points=2, vrels=("exact", "superset_permuted")):
+    i = 0
+    for fam, node, inv in special_families():
+        for vrel in vrels:
+            i += 1
+            if not mine(i):
+                continue
+            try:
+                c = finish_case(rng, D0, node, vrel, "special:" + fam.split(":")[0], n_points)
+            except (R.ShapeError, R.OutOfModel):
+                c = None
+            if c is not None:
+                c["inv_scale"] = inv
+                c["special"] = fam
+                yield c
+
+
+def other_point_forms(case, margin=0.05):
+    """The caller's point in other legal representations: an integer-valued point passed as an int64 ndarray and as a list of Python
+    ints (callables must not let the *dtype of the point* leak into the result).  Returns (pt, [(label, array-like)]) or None when the
+    small integer points tried are not regular points of the recipe."""
+    D = R.Decls(case["decls"])
+    node = case.get("node")
+    nodes = case.get("nodes") or [node]
+    V = case["V"]
+    names = list(dict.fromkeys(V + D.all_var_names()))
+    for base in (1, 2, 3):
+        pt = {nm: float(base + (i * 2 + base) % 3) for i, nm in enumerate(names)}
+        try:
+            ok = True
+            for nd in nodes:
+                _, t = R.ref_value(D, nd, pt)
+                ok = ok and t.regular(margin)
+        except Exception:
+            ok = False
+        if ok:
+            ints = [int(pt[nm]) for nm in V]
+            import numpy as np
+
+            return pt, [("int64-array", np.array(ints, dtype=np.int64)), ("list-of-ints", list(ints)), ("int32-array", np.array(ints, dtype=np.int32))]
+    return None
+
+
 DAG_FORMS = ["t*t+t", "sin(t)/(t*t+1.5)", "u*u-u/(t*t+2)", "exp(-t*t)*t"]
 
 
